@@ -69,6 +69,14 @@ impl C13 {
         };
         let cmds: Vec<RawCommand> = (0..n).map(|_| gen_raw(r)).collect();
         let singles: Vec<Vec<u8>> = cmds.iter().map(|c| cap.send(c.clone())).collect();
+        // one case in four: earlier on this thread, requests on ANOTHER connection failed half-way through the write
+        if r.chance(1, 4) {
+            let other = RawCommandList::new(RawCommand::new("clear")).command(RawCommand::new("add").argument("left over.flac")).command(RawCommand::new("play"));
+            let failed = crate::sim::capture::failed_sends_on_another_connection(r.below(30), RawCommand::new("stop").argument("left over"), other);
+            if failed > 0 {
+                acc.inc("lists_sent_after_a_failed_write_on_another_connection");
+            }
+        }
         // build through new / command / add / extend
         let mut list = RawCommandList::new(cmds[0].clone());
         let mut k = 1;
@@ -83,11 +91,45 @@ impl C13 {
                     k += 1;
                 }
                 _ => {
+                    // Extend from iterators of every kind: exact-size, without a useful size_hint (filter,
+                    // flat_map, from_fn), chained, and empty ones
                     let m = r.range(1, (n - k).min(5));
-                    list.extend(cmds[k..k + m].iter().cloned());
+                    let part: Vec<RawCommand> = cmds[k..k + m].to_vec();
+                    match r.below(7) {
+                        0 => list.extend(part.iter().cloned()),
+                        1 => list.extend(part),
+                        2 => {
+                            acc.inc("extended_from_an_iterator_without_exact_size");
+                            list.extend(part.into_iter().filter(|_| true))
+                        }
+                        3 => {
+                            acc.inc("extended_from_an_iterator_without_exact_size");
+                            list.extend(part.into_iter().flat_map(|c| std::iter::once(c)))
+                        }
+                        4 => {
+                            acc.inc("extended_from_an_iterator_without_exact_size");
+                            let mut it = part.into_iter();
+                            list.extend(std::iter::from_fn(move || it.next()))
+                        }
+                        5 => {
+                            let (a, b) = part.split_at(m / 2);
+                            list.extend(a.iter().cloned().chain(b.iter().cloned()))
+                        }
+                        _ => {
+                            list.extend(std::iter::empty());
+                            acc.inc("extended_from_an_empty_iterator");
+                            list.extend(part.into_iter().filter(|_| true));
+                            list.extend(Vec::new());
+                        }
+                    }
                     k += m;
                 }
             }
+        }
+        if n == 1 && r.chance(1, 2) {
+            // a list of one command stays a list of one command when nothing is added to it
+            list.extend(std::iter::empty());
+            acc.inc("extended_from_an_empty_iterator");
         }
         acc.inc("evaluations");
         acc.inc("raw_lists_rendered");
@@ -116,6 +158,42 @@ impl C13 {
                 format!("a list of {} commands is not framed as one batch of the individually rendered lines in order", n),
                 J::obj().set("expected", J::bytes(&want)).set("blocking", J::bytes(&got)).set("async", J::bytes(&got_async)),
             );
+        }
+    }
+
+    /// A list far beyond any buffer or server-side limit the library might know about (MPD's default
+    /// `max_command_list_size` is 2 MiB): it is still ONE batch; whether the server accepts it is the server's business.
+    fn huge_list(&self, acc: &mut Acc, i: u64, total_bytes: usize) {
+        let mut cap = SyncCapture::new(usize::MAX);
+        let mut acap = AsyncCapture::new(1 << 16);
+        let mk = |k: usize| RawCommand::new("add").argument(format!("music/artist {}/album/track {:06}.flac", k % 97, k));
+        let one = cap.send(mk(0)).len();
+        let n = total_bytes / one + 1;
+        let mut list = RawCommandList::new(mk(0));
+        for k in 1..n {
+            if k % 3 == 0 {
+                list.add(mk(k));
+            } else {
+                list.extend(std::iter::once(mk(k)));
+            }
+        }
+        let mut want = b"command_list_ok_begin\n".to_vec();
+        for k in 0..n {
+            want.extend_from_slice(format!("add \"music/artist {}/album/track {:06}.flac\"\n", k % 97, k).as_bytes());
+        }
+        want.extend_from_slice(b"command_list_end\n");
+        acc.inc("evaluations");
+        acc.inc("lists_larger_than_2_MiB");
+        acc.count("bytes_of_the_largest_list", want.len() as u64);
+        let got = cap.send_list(list.clone());
+        let got_async = acap.send_list(list);
+        for (name, g) in [("blocking", &got), ("async", &got_async)] {
+            if g != &want {
+                let begins = g.windows(22).filter(|w| w == b"command_list_ok_begin\n").count();
+                let at = g.iter().zip(want.iter()).position(|(a, b)| a != b).unwrap_or(g.len().min(want.len()));
+                acc.violation(i, None, format!("a list of {} commands ({} bytes) is not written as one batch on the {} connection: {} bytes written, {} begin markers, first difference at byte {}", n, want.len(), name, g.len(), begins, at), J::obj().set("around", J::bytes(&g[at.saturating_sub(60)..(at + 60).min(g.len())])));
+                return;
+            }
         }
     }
 
@@ -268,7 +346,7 @@ impl Property for C13 {
     }
     fn cases(&self, cfg: &Cfg) -> u64 {
         // 64 tuple shapes + 21 vector lengths (x repetitions), offline raw framing
-        (64 + 21) * cfg.tier.pick(4, 20) + 5 + cfg.tier.pick(2_000, 40_000)
+        (64 + 21) * cfg.tier.pick(4, 20) + 5 + cfg.tier.pick(2, 4) + cfg.tier.pick(2_000, 40_000)
     }
     fn run_case(&self, cfg: &Cfg, i: u64, acc: &mut Acc) {
         let reps = cfg.tier.pick(4, 20);
@@ -290,18 +368,28 @@ impl Property for C13 {
             self.empty_list_on_dead_connection(acc, i, i - sess_cases, cfg.seed);
             return;
         }
+        let huge = cfg.tier.pick(2, 4);
+        if i > sess_cases + 4 && i <= sess_cases + 4 + huge {
+            let sizes = [(2usize << 20) + 4096, 3 << 20, 9 << 20, 33 << 20];
+            self.huge_list(acc, i, sizes[(i - sess_cases - 5) as usize]);
+            return;
+        }
         let mut r = Rng::keyed(&[cfg.seed, 13, i]);
         self.raw_framing(acc, i, &mut r);
     }
     fn meta(&self, _cfg: &Cfg, _acc: &Acc) -> Meta {
         Meta {
             level: "exploration",
-            rule: "(i) framing: raw lists of 1-50 commands with arguments needing quotes and, in one command of twelve, a 4-70 KB argument, built through new/command/add/extend, must render (blocking and async connection) to exactly command_list_ok_begin + the individually rendered lines in order + command_list_end, a list of one command to the bare line; Vec command lists of length 0-20: None when empty; an empty typed list issued after the connection has ended (clean close / read error) still yields an empty result and writes nothing; (ii) pairing, EXHAUSTIVE over tuple arities 1-8 x all 8 rotations of 8 distinguishable command types (update, addid, sticker get, count, listplaylistinfo, rescan, status, ping) and Vec lengths 0-20: executed through Client::command_list in sessions against the simulated server whose reply to each command carries a token derived from the command's own argument, with chopped replies, read caps, a concurrent caller and notifications; result i must carry token i (a misplaced frame of another type fails conversion), the request must have been written as one batch / bare line / nothing for the empty list; non-trivial = list with >=2 commands with pairwise distinct tokens; distinct by (shape, tokens)".into(),
+            rule: "(i) framing: raw lists of 1-50 commands with arguments needing quotes and, in one command of twelve, a 4-70 KB argument, built through new/command/add/extend (Extend from exact-size, filter / flat_map / from_fn, chained and empty iterators), one case in four after requests on another connection of the same thread failed half-way through their write, must render (blocking and async connection) to exactly command_list_ok_begin + the individually rendered lines in order + command_list_end, a list of one command to the bare line; lists of 2-3 MiB (thorough: up to 33 MiB) of command lines are still one begin...end block; Vec command lists of length 0-20: None when empty; an empty typed list issued after the connection has ended (clean close / read error) still yields an empty result and writes nothing; (ii) pairing, EXHAUSTIVE over tuple arities 1-8 x all 8 rotations of 8 distinguishable command types (update, addid, sticker get, count, listplaylistinfo, rescan, status, ping) and Vec lengths 0-20: executed through Client::command_list in sessions against the simulated server whose reply to each command carries a token derived from the command's own argument, with chopped replies, read caps, a concurrent caller and notifications; result i must carry token i (a misplaced frame of another type fails conversion), the request must have been written as one batch / bare line / nothing for the empty list; non-trivial = list with >=2 commands with pairwise distinct tokens; distinct by (shape, tokens)".into(),
             nontrivial_set: "nontrivial",
             assumptions: vec!["simulated server (token replies) as in C01".into(), "the individual rendering of each command is C15's subject".into()],
             exhaustive: Some(true),
             floors: vec![
                 ("raw_lists_rendered".into(), 300),
+                ("lists_larger_than_2_MiB".into(), 2),
+                ("extended_from_an_iterator_without_exact_size".into(), 50),
+                ("extended_from_an_empty_iterator".into(), 20),
+                ("lists_sent_after_a_failed_write_on_another_connection".into(), 50),
                 ("typed_list_sessions".into(), 85),
                 ("tuple_arity_8".into(), 8),
                 ("tuple_arity_1".into(), 8),
